@@ -89,6 +89,13 @@ def worldNow (o : Oracle) : World Name Name where
     | some l => .ok l
     | none => needO (.target e)
 
+def nEnglish : Name := [69,110,103,108,105,115,104]
+def nUnknown : Name := [85,110,107,110,111,119,110]
+
+/-- `most_probably_language()` with the dumped encoding → languages table -/
+def mostProbableNow (m : Match Name Name) : Name :=
+  mostProbable nEnglish nUnknown nASCII (fun e => (lookupName Gen.targetLanguages e).getD []) m
+
 /-- the container's sort, `items.sort_unstable()`: the comparison keys (chaos, coherence, multi-byte
     usage) are computed once per element, then `sort_unstable` runs on (key, element) pairs with
     `is_less` = `Ord::cmp == Less` on the keys — the same comparisons the Rust code makes. -/
